@@ -103,6 +103,11 @@ pub fn run_probe_with(exe: Option<&str>, args: &[String], stdin: Option<&[u8]>, 
 
 /// Run many probes on a pool of threads; results in input order.
 pub fn run_probes(jobs: Vec<Vec<String>>, timeout: Duration, threads: usize) -> Vec<ProbeResult> {
+    run_probes_with(None, jobs, timeout, threads)
+}
+
+/// The same with another executable for the children (e.g. the unoptimised build of the harness).
+pub fn run_probes_with(exe: Option<&str>, jobs: Vec<Vec<String>>, timeout: Duration, threads: usize) -> Vec<ProbeResult> {
     let n = jobs.len();
     let results: std::sync::Mutex<Vec<Option<ProbeResult>>> = std::sync::Mutex::new(vec![None; n]);
     let next = std::sync::atomic::AtomicUsize::new(0);
@@ -113,7 +118,7 @@ pub fn run_probes(jobs: Vec<Vec<String>>, timeout: Duration, threads: usize) -> 
                 if i >= n {
                     break;
                 }
-                let r = run_probe(&jobs[i], None, timeout, &[]);
+                let r = run_probe_with(exe, &jobs[i], None, timeout, &[]);
                 results.lock().unwrap()[i] = Some(r);
             });
         }
